@@ -37,7 +37,6 @@ func fillerKey(i int) []byte {
 	return k
 }
 
-
 // RunPath executes one export/import/mirror scenario.
 func RunPath(w *tr.Writer, in *tr.Interner, st *PathStats, tid int, p PathPlan) {
 	w.NextTrace()
